@@ -193,6 +193,9 @@ func (f *File) Write(p []byte) (int, error) {
 				W.CountFault("pipe.latency")
 			}
 		}
+		if hook := W.OnPipeWrite; hook != nil {
+			hook(f.sh.buf.name, f.owner, p)
+		}
 		n, err := f.sh.buf.write(p, nil, f.owner, lat, &fs.PathError{Op: "write", Path: f.name, Err: ErrClosed})
 		if err == EPIPE {
 			err = &fs.PathError{Op: "write", Path: f.name, Err: EPIPE}
